@@ -52,6 +52,10 @@ CHECKS = {
    technique="exhaustive enumeration of a finite option-value domain (defaults, every single value, every pair of values of different options) on the real database with create / reopen / reopen-with-other-options cycles",
    text="For every single value and every pair of values of a boundary-value domain per option (policy vectors of length 1,2,3,7,255, memtable sizes, flags, Leveled and FIFO parameters, blob options) a keyspace is created on the real database, then reopened three times while being opened with maximally different options; every option field, read back through the doc-hidden config, a cfg-gated accessor for the crate-private scalars, the strategy's name and encoded config and float bit patterns, must equal the creation values; max_memtable_size is cross-checked behaviourally.",
    note="Pairs, not all combinations. Exhaustive over the stated finite domain."),
+ "C17": dict(level="model_checking", engine="E1-seqcheck (handle programs, marker sweep) + E3-schedcheck", design="§3, §5, §6 C17",
+   technique="bounded exhaustive enumeration of handle open/clone/drop programs and of version-marker contents on the real code, plus controlled-scheduler exploration (all interleavings up to a preemption bound) of handles dropped while fjall's own workers run",
+   text="Every program up to the stated depth over cloning database handles, opening/cloning keyspace handles, writing, queueing background work, snapshots, dropping any handle and attempting a second open as each of the three database types is executed for each database type: while a handle lives the second open must return Locked and leave the directory hash unchanged; after the last drop every type must open and show the last write (with real worker threads: no worker thread may remain). Every marker byte string up to the stated length over a boundary alphabet, all version bytes, a reduced set on databases with tables and with a rotated-away first journal, and the v1/v2 fixtures must be refused unmodified unless they start with the current header. Under the controlled scheduler the last handle drop must return only after every file of the directory is closed, in every schedule up to the preemption bound.",
+   note="Snapshots hold no database handle. Extra bytes after a correct header are outside the property. Four genuine defects found here were repaired (see known_findings.txt, fixed: lines)."),
 }
 
 NOT_YET = {
